@@ -24,6 +24,8 @@ and carry the C16 / C04 theorems over to them. `Model/ApiInfo.lean` is the remem
    `grp_scrape_is_last_get` (what a scrape shows = what the last `Open` read), `grp_range_is_chunk`
    (the range shown is always the chunk of the (member, size) shown), `grp_info_keeps_scrape`,
    `grp_reb_counts_rebalances`
+   5b. consumer calls in flight: `api_markers_session`, `api_markers_group`, `api_hold_release_insensitive`
+   (hold / release markers anywhere in a history change no state and no scrape), `api_held_across_rebalances`
 6. non-vacuity examples
 -/
 namespace GoDcp.C16Api
@@ -382,6 +384,67 @@ example :
     lastGet { nvb := 8, memInfo := (1, 2) } none [.openNew, .info 2 2] = some (1, 2) := by decide
 
 end Group
+
+/-! ## 5b. consumer calls in flight: marker insensitivity -/
+
+section Markers
+open GoDcp.ApiGroup
+
+theorem runMarked_eq_strip {σ α : Type} (step : σ → α → σ) (s : σ) (l : List (Marked α)) :
+    runMarked step s l = (Marked.strip l).foldl step s := by
+  induction l generalizing s with
+  | nil => rfl
+  | cons m r ih =>
+    cases m with
+    | op o => simp only [runMarked, List.foldl_cons, stepMarked, Marked.strip] at ih ⊢; exact ih _
+    | holdNext => simp only [runMarked, List.foldl_cons, stepMarked, Marked.strip] at ih ⊢; exact ih _
+    | release => simp only [runMarked, List.foldl_cons, stepMarked, Marked.strip] at ih ⊢; exact ih _
+
+/-- the session model under a marked history is the session model under the history without the markers -/
+theorem api_markers_session (s : St) (l : List (Marked Op)) :
+    runMarked (fun s o => (step s o).1) s l = run s (Marked.strip l) := by
+  rw [runMarked_eq_strip]; rfl
+
+/-- the same for the group model -/
+theorem api_markers_group (g : GSt) (l : List (Marked GOp)) :
+    runMarked ApiGroup.step g l = ApiGroup.run g (Marked.strip l) := by
+  rw [runMarked_eq_strip]; rfl
+
+/-- **the statement the hold / release tie relies on**: from every state, two histories that differ only in where
+    (and whether) `hold-next` / `release` markers stand reach the same state; every endpoint answer and every
+    gauge — rows, lags, total lag, offsets, member number, group size, range, active streams and the rebalance
+    count — is the same. When a consumer call returns cannot show in any scrape. -/
+theorem api_hold_release_insensitive (s : St) (g : GSt) (l l' : List (Marked Op)) (lg lg' : List (Marked GOp))
+    (h : Marked.strip l = Marked.strip l') (hg : Marked.strip lg = Marked.strip lg') :
+    let t := runMarked (fun s o => (step s o).1) s l
+    let t' := runMarked (fun s o => (step s o).1) s l'
+    let u := runMarked ApiGroup.step g lg
+    let u' := runMarked ApiGroup.step g lg'
+    t = t' ∧ apiMetrics t = apiMetrics t' ∧ apiOffsets t = apiOffsets t' ∧ u = u' ∧ scrapeGrp u = scrapeGrp u' := by
+  simp only [api_markers_session, api_markers_group, h, hg, and_self]
+
+/-- with `grp_reb_counts_rebalances`: a call held across k completed rebalances changes nothing — the count shown is k -/
+theorem api_held_across_rebalances (g : GSt) (k : Nat) :
+    (runMarked ApiGroup.step (ApiGroup.step g .openNew)
+      (.holdNext :: (List.replicate k (Marked.op GOp.rebalance) ++ [.release]))).reb = k := by
+  rw [api_markers_group]
+  have hs : ∀ k, Marked.strip (List.replicate k (Marked.op GOp.rebalance) ++ [Marked.release]) = List.replicate k GOp.rebalance := by
+    intro k
+    induction k with
+    | zero => rfl
+    | succ n ih => simp only [List.replicate_succ, List.cons_append, Marked.strip, ih]
+  simp only [Marked.strip, hs]
+  exact grp_reb_counts_rebalances g k
+
+/-- non-vacuity: markers in different places, same scrape (one rebalance after an open as member 1 of 2 over 8) -/
+example :
+    let g0 : GSt := { nvb := 8, memInfo := (1, 2) }
+    scrapeGrp (runMarked ApiGroup.step g0 [.op .openNew, .holdNext, .op (.info 2 2), .op .rebalance, .release]) =
+      scrapeGrp (runMarked ApiGroup.step g0 [.op .openNew, .op (.info 2 2), .holdNext, .release, .op .rebalance]) ∧
+    (scrapeGrp (runMarked ApiGroup.step g0 [.op .openNew, .holdNext, .op (.info 2 2), .op .rebalance, .release])).reb = 1 := by
+  decide
+
+end Markers
 
 /-! ## 6. non-vacuity -/
 
